@@ -40,14 +40,6 @@ func (fr *frame) invoke(st *PState, c *ssa.CallCommon, recv Val, args []Val, k f
 		k(st, fr.iterMethod(st, r, m, args, sig))
 		return
 	}
-	// guard clauses on interface methods: `before[..] <Iface>).<Method> requires ...` (arg0 = first argument)
-	if fr.depth == 0 && len(fr.top.guardCalls) > 0 {
-		gargs := args
-		if sig.Recv() != nil {
-			gargs = append([]Val{recv}, args...) // go/types gives interface methods a receiver: keep names and values aligned
-		}
-		fr.checkGuards(st, "("+ipkg+"."+iname+")."+m, sig, gargs)
-	}
 	// codec
 	if strings.HasSuffix(ipkg, "cosmos-sdk/codec") && (iname == "BinaryCodec" || iname == "Codec") {
 		if res, ok := fr.codecMethod(st, m, args, sig); ok {
@@ -135,6 +127,15 @@ func (fr *frame) invoke(st *PState, c *ssa.CallCommon, recv Val, args []Val, k f
 		}
 		fr.callFunction(st, qname, f, fsig, append([]Val{recvV}, args...), k)
 		return
+	}
+	// guard clauses on interface methods that are not bound to a keeper of the repository (bound ones are checked at the
+	// concrete callee, with its parameter names): `before[..] <Iface>).<Method> requires ...` (arg0 = first argument)
+	if fr.depth == 0 && len(fr.top.guardCalls) > 0 {
+		gargs := args
+		if sig.Recv() != nil {
+			gargs = append([]Val{recv}, args...) // go/types gives interface methods a receiver: keep names and values aligned
+		}
+		fr.checkGuards(st, "("+key+")."+m, sig, gargs)
 	}
 	if pv := fr.top.contract.Flags["pure"]; pv != "" {
 		for _, sub := range strings.Split(pv, ",") {
